@@ -382,9 +382,11 @@ impl World {
         let mut pages = vec![first.clone()];
         let mut next = first.next_page.clone();
         let mut guard = 0;
+        // queries are deterministic: a page token seen before means the listing never ends
+        let mut seen_tokens: std::collections::HashSet<Vec<u8>> = std::collections::HashSet::new();
         while let Some(p) = next {
             guard += 1;
-            if guard > 100_000 {
+            if guard > 100_000 || !seen_tokens.insert(p.to_vec()) {
                 return Err("pagination does not terminate".into());
             }
             let r = self.utxos_req(address, Some(UtxosFilterInRequest::Page(p)), limit)?;
